@@ -185,7 +185,7 @@ def lexer_models():
                 pieces[-1] += ch
         return ListIter([Str(p) for p in pieces])
 
-    @reg(r'^(core::char::methods::)?<impl char>::is_ascii_alphanumeric$|^char::is_ascii_alphanumeric$', 'char::is_ascii_alphanumeric')
+    @reg(r'^(core::)?(char::methods::)?<impl char>::is_ascii_alphanumeric$|^char::is_ascii_alphanumeric$', 'char::is_ascii_alphanumeric')
     def is_alnum(ctx, args, callee):
         c = conc(ctx.deref(args[0]))
         return BoolVal(chr(c).isascii() and chr(c).isalnum())
